@@ -71,3 +71,28 @@ func VerifH05c() {
 	nd.Assert(sameState(f1, vals1, f2, vals2), "H05c.reopen-preserves-the-first-writes")
 	nd.Reach("H05c.end")
 }
+
+// VerifH05d: a commit of several keys, then a restart. A transaction writes two or three keys
+// (among them a non-ASCII one) and commits; an autocommit write follows; after Close/Open (same or
+// new process) every key reads as it did before, and again after a second restart.
+func VerifH05d() {
+	nd.SetPreemptionBound(0)
+	w := newWorld(stdConfig(), []string{"a", "b", "ключ"})
+	w.mixAPIs = true
+	nd.Assert(w.doSet(0, "a", w.freshVal(), 0) == nil, "H05d.pre")
+	t := w.begin(allLevels[nd.Choice("level", 4)])
+	nk := 2 + nd.Choice("keys", 2)
+	for _, k := range w.keys[:nk] {
+		nd.Assert(w.doSet(t, k, w.freshVal(), w.howFor(t, k)) == nil, "H05d.tx-write")
+	}
+	w.commit(t, "H05d")
+	if nd.Choice("autocommit-after", 2) == 1 {
+		nd.Assert(w.doSet(0, "b", w.freshVal(), 0) == nil, "H05d.later-write")
+	}
+	w.checkReads("H05d.before-close")
+	w.reopen("H05d")
+	w.checkReads("H05d.after-reopen")
+	w.reopen("H05d")
+	w.checkReads("H05d.after-second-reopen")
+	nd.Reach("H05d.end")
+}
